@@ -366,7 +366,9 @@ def analyse_function(relpath, fn, loader, iterable_params):
                                 owner_lvl = level_of(tg) if tg is not None else None
                             else:
                                 owner_lvl = lvl
-                            if kind == "oneshot" and owner_lvl in ("app", "factory") and lvl in ("app", "factory") and not multicast and not hot:
+                            # (wherever the call sits: at application scope the callee consumes it once per subscription; inside the
+                            # subscription - a defer factory, a subscribe function - this code does, on the SAME object every time)
+                            if kind == "oneshot" and owner_lvl in ("app", "factory") and not multicast and not hot:
                                 findings.append(Finding("C04", fn.name, f"one-shot-iterator-to-{fname}",
                                                         f"a one-shot iterator built at {owner_lvl} scope is handed to {fname}(...), whose "
                                                         f"Iterable parameter is consumed once per subscription (requires reiterable)", n.lineno))
